@@ -71,7 +71,7 @@ def run_item(item):
     if kind == "index":
         return run_index(item, res, I)
     vs, s = sym_sequence(I, N)
-    rng = random.Random(N * 17 + item.get("A", 0))
+    rng = seeded_rng(N * 17 + item.get("A", 0))
     if kind == "reject":
         for ctype in ("XX", "wf2", None, 5, "RHP"):
             def thunk(ctype=ctype):
